@@ -569,6 +569,9 @@ def cases(tier, rng):
                 if rng.random() < 0.5:
                     idx[-1] = hi
             yield {"op": "write", "refs": two, "text": [], "recs": recs_[:n], "blk": 4096, "eof": True, "mode": "index", "idx": idx}
+    for bits in range(32):      # every boolean-mask selection of five records
+        yield {"op": "write", "refs": two, "text": [], "recs": (eq if bits % 2 else uneq)[:5], "blk": 4096, "eof": True, "mode": "mask",
+               "idx": [i for i in range(5) if bits >> i & 1]}
     # 28-bit CIGAR lengths >= 2^27, and files ending with zero-op records after a record whose last op consumes the reference
     bigc = dict(base, pos=5, cigar=[["S", (1 << 28) - 1], ["M", 1 << 27], ["I", (1 << 27) + 1], ["N", (1 << 27) + 3], ["H", 1 << 27]])
     tail0 = [dict(base, cigar=[["S", 2], ["M", 7]]), dict(base, name="z1", cigar=[]), dict(unm, name="z2", cigar=[])]
